@@ -82,8 +82,8 @@ def coldproc_scenario(run_seed, tier):
     g.frames[tid] = g.train_frame(cfg, 0)
     fm = g.formula(cfg)
     op = {"op": "sweep_coldproc", "client": 0, "formula": fm["text"], "frame": tid, "na_action": "drop", "fm": fm,
-          "mode": r.choice(["line", "call"]), "stride": r.choice([3, 5, 7, 11]), "offset": r.randrange(11),
-          "max_points": 300 if tier == "thorough" else 100, "abort": "build", "fault": None, "n": 0}
+          "mode": r.choice(["line", "call"]), "stride": r.choice([2, 3, 5, 7]), "offset": r.randrange(7),
+          "max_points": 400 if tier == "thorough" else 170, "abort": "build", "fault": None, "n": 0}
     if r.random() < 0.6:
         part = "group" if fm["groups"] and r.random() < 0.5 else "common"
         clean = g.shape_new_frame(g.fresh_frame(g.frames[tid], fm, n=r.choice([2, 4, 6])), fm)
